@@ -44,6 +44,26 @@ def loads_of(sc, fn, canon):
     res = ir.Resolver(fn)
     return [x for x in fn.ins if x.op == 'load' and sc.is_var(res.loc(x.ops[0]), canon)]
 
+
+def action_switch(fn):
+    """the switch over yy_act in yylex (the one with the most cases)"""
+    sws = [x for x in fn.ins if x.op == 'switch']
+    sw = max(sws, key=lambda x: len(x.cases)) if sws else None
+    return sw if sw is not None and len(sw.cases) >= 3 else None
+
+def eob_constant(sc, fn):
+    """YY_END_OF_BUFFER: the constant added to yystart() where yylex forms the EOF action number; returns (constant, store)"""
+    res = ir.Resolver(fn)
+    for x in fn.ins:
+        if x.op != 'store': continue
+        d = fn.def_of(x.ops[1])
+        if d is None or d.op != 'alloca': continue
+        sl = flow.value_slice(fn, x.ops[0])
+        if not any((y.op == 'load' and sc.is_var(res.loc(y.ops[0]), 'yy_start')) or (y.op in ('call', 'invoke') and sc.callee(y) == 'yystart') for y in sl): continue
+        cs_ = [o[1] for y in sl if y.op == 'add' for o in y.ops if o[0] == 'int' and o[1] > 1]
+        if cs_: return cs_[0], x
+    return None, None
+
 # ---------------------------------------------------------------- R1
 
 def r1(ctx, sc):
@@ -83,27 +103,33 @@ def r1(ctx, sc):
             rep.fail('C05.R1', sc.key('C05.R1', c, 'reaches-writer:' + chain[-1]), fwhere(f),
                      '%s changes the start state through %s [variant %s]' % (c, ' -> '.join(chain), v.name),
                      witness=chain, variant=v.describe())
-    # inside yylex: skeleton stores must not lie on the refill / end-of-file path
+    # inside yylex: the only store outside the rule arms is the first-call initialisation; nothing in the end-of-buffer arm
+    # (NUL handling, refill, yywrap, dispatch to the EOF action) stores the start state
     for f in sc.fns('yylex'):
         st = writers.get(f.name, [])
-        if 'noline' in v.options: continue
-        cfg = sc.prog.cfg(f)
-        eofish = sc.calls(f, 'yy_get_next_buffer', 'yywrap')
-        if not eofish: continue
+        sw = action_switch(f)
+        if sw is None: continue                     # yyclass stub
+        EOB, _ = eob_constant(sc, f)
+        if EOB is None: rep.broken('C05.R1: YY_END_OF_BUFFER not found in yylex of %s' % v.name)
+        arm = [l for c_, l in sw.cases if c_ == EOB]
+        if not arm: rep.broken('C05.R1: no YY_END_OF_BUFFER arm in the action switch of %s' % v.name)
+        cfg = sc.prog.cfg(f, cut=False)
+        armb = f.bmap[arm[0]]
+        n += 1
+        bad = [x for x in st if cfg.dominates(armb, x.blk)]
+        if bad:
+            rep.fail('C05.R1', sc.key('C05.R1', 'yylex', 'store-in-end-of-buffer-arm'), where(bad[0]),
+                     'the end-of-buffer arm of yylex (refill / yywrap / end of file) stores the start state [variant %s]' % v.name, variant=v.describe())
+        else:
+            rep.ok('C05.R1', '%s yylex: no store of yy_start in the end-of-buffer arm (%d blocks)' % (v.name, sum(1 for b in f.blocks if cfg.dominates(armb, b))))
         for x in st:
-            if x.loc[0] == 'spec.l': continue        # user action of the probe
+            if cfg.dominates(sw.blk, x.blk): continue           # rule arms: user actions (yybegin macro)
             n += 1
-            bad = [c for c in eofish if x in cfg.reach(c)]
-            if bad:
-                rep.fail('C05.R1', sc.key('C05.R1', 'yylex', 'store-after-refill'), where(x),
-                         'yylex stores the start state on a path that follows %s (end-of-buffer / end-of-file handling must not change '
-                         'the start condition) [variant %s]' % (sc.callee(bad[0]), v.name),
-                         witness=['%s:%s' % (i.blk.name, i.line) for i in (cfg.path(bad[0], lambda y: y is x) or [])], variant=v.describe())
-            elif x.ops[0] != ('int', 1):
-                rep.fail('C05.R1', sc.key('C05.R1', 'yylex', 'init-store-value'), where(x),
-                         'the skeleton store of the start state in yylex is not the first-call initialisation to state 1 [variant %s]' % v.name, variant=v.describe())
+            if x.ops[0] != ('int', 1) or x in sc.prog.cfg(f).reach(sw):
+                rep.fail('C05.R1', sc.key('C05.R1', 'yylex', 'init-store'), where(x),
+                         'a store of the start state in yylex outside the rule arms is not the first-call initialisation to state 1 [variant %s]' % v.name, variant=v.describe())
             else:
-                rep.ok('C05.R1', '%s yylex:%s initialisation store only, not reachable from refill/yywrap' % (v.name, x.line))
+                rep.ok('C05.R1', '%s yylex:%s first-call initialisation yy_start = 1, before the scanning loop' % (v.name, x.line))
     return n
 
 # ---------------------------------------------------------------- R2
